@@ -183,11 +183,11 @@ def units(tier):
     ns = 2 if q else 3
     for ks in (16, 24, 32):
         for s in range(ns):
-            us.append({'name': 'aes-windows-%d-%d' % (ks, s), 'fn': 'unit_aes_windows', 'kwargs': {'ks': ks, 'reps': 2 if q else 12, 'shard': s, 'nshards': ns}})
-    us.append({'name': 'schedules', 'fn': 'unit_schedules', 'kwargs': {'reps': 6 if q else 100}})
+            us.append({'name': 'aes-windows-%d-%d' % (ks, s), 'fn': 'unit_aes_windows', 'kwargs': {'ks': ks, 'reps': 2 if q else 40, 'shard': s, 'nshards': ns}})
+    us.append({'name': 'schedules', 'fn': 'unit_schedules', 'kwargs': {'reps': 6 if q else 400}})
     for s in range(4 if q else 6):
-        us.append({'name': 'des-master-%d' % s, 'fn': 'unit_des_master', 'kwargs': {'reps': 1 if q else 10, 'shard': s}})
-    us.append({'name': 'generated', 'fn': 'unit_generated', 'kwargs': {'n': 500 if q else 8000}})
+        us.append({'name': 'des-master-%d' % s, 'fn': 'unit_des_master', 'kwargs': {'reps': 1 if q else 30, 'shard': s}})
+    us.append({'name': 'generated', 'fn': 'unit_generated', 'kwargs': {'n': 500 if q else 30000}})
     return us
 
 
